@@ -673,9 +673,10 @@ class L4(_Base):
         elif fam == "multisig":
             mode, n, m = u["mode"], u["n"], u["m"]
             pks = [R.sec(keys[i][1], i != 1) if mode != "p2wsh" else R.sec(keys[i][1]) for i in range(n)]
-            for verify in (False, True):
+            for verify in (False, True, "not"):
+                # "not": CHECKMULTISIG NOT - a failed check is tolerated by the script, so only NULLFAIL / encoding rules can refuse it
                 script = bytes([0x50 + m]) if m else b"\x00"
-                script += b"".join(R.push_data(pk) for pk in pks) + bytes([0x50 + n]) + (b"\xaf\x51" if verify else b"\xae")
+                script += b"".join(R.push_data(pk) for pk in pks) + bytes([0x50 + n]) + (b"\xae\x91" if verify == "not" else b"\xaf\x51" if verify else b"\xae")
                 amount = 999 if mode == "p2wsh" else 0
                 spk = self._spk_for(mode, script)
                 z = _z_of(spk, mode, amount, 1, script)
